@@ -8,11 +8,12 @@
 From Coq Require Import String List Bool Ascii Arith.
 Import ListNotations.
 Local Open Scope string_scope.
+Local Open Scope list_scope.
 
 (* ---------- strings ---------- *)
 Definition lower_ascii (c : ascii) : ascii :=
   let n := nat_of_ascii c in
-  if (65 <=? n) && (n <=? 90) then ascii_of_nat (n + 32) else c.
+  if Nat.leb 65 n && Nat.leb n 90 then ascii_of_nat (n + 32) else c.
 Fixpoint lower (s : string) : string :=
   match s with EmptyString => EmptyString | String c r => String (lower_ascii c) (lower r) end.
 Definition mem (s : string) (l : list string) : bool := existsb (String.eqb s) l.
@@ -22,7 +23,7 @@ Fixpoint split_plus_aux (s acc : string) : list string :=
   match s with
   | EmptyString => [acc]
   | String c r => if Ascii.eqb c "+"%char then acc :: split_plus_aux r EmptyString
-                  else split_plus_aux r (acc ++ String c EmptyString)
+                  else split_plus_aux r (String.append acc (String c EmptyString))
   end.
 Definition split_plus (s : string) : list string := split_plus_aux s EmptyString.
 
@@ -67,7 +68,7 @@ Record klass := {
   k_kws : option (list string);         (* input_keywords() ; None = raises / absent : the class is skipped *)
   k_params : list string;               (* every constructor parameter after self *)
   k_defaults : list (string * string);  (* the keyword parameters with the repr of their default *)
-  k_varkw : bool;                       (* accepts **kwargs *)
+  k_varkw : bool;                       (* accepts arbitrary keyword arguments *)
   k_mixin_args : list (string * string) (* __init_mixin__ keyword parameters (mixin classes) *) }.
 
 Definition claims (kw : string) (k : klass) : bool :=
@@ -99,6 +100,9 @@ Fixpoint resolve_all (reg : list klass) (kws : list string) : option (list klass
                | Some k, Some ks => Some (k :: ks) | _, _ => None end
   end.
 
+Fixpoint has_dup (l : list string) : bool :=
+  match l with [] => false | x :: r => mem x r || has_dup r end.
+
 (* determine_klass(config, field, factory, baseclass) on the scalar entries of a section.
    custom : the class found in the user's python_file (None = the file defines no such class) *)
 Definition determine (reg mixreg : list klass) (custom : option klass) (field : string)
@@ -121,7 +125,9 @@ Definition determine (reg mixreg : list klass) (custom : option klass) (field : 
         | [one] => match resolve reg one with Some k => Ok (cfg1, Plain k) | None => Err ENotImpl end
         | base :: mixins_rev =>
             match resolve reg base, resolve_all mixreg (rev mixins_rev) with
-            | Some b, Some ms => Ok (cfg1, Mixed ms b)
+            | Some b, Some ms =>
+                (* type(name, bases, ...) refuses a base class that appears twice *)
+                if has_dup (map k_name ms ++ [k_name b]) then Err EType else Ok (cfg1, Mixed ms b)
             | _, _ => Err ENotImpl
             end
         end
@@ -145,15 +151,24 @@ Definition kwargs_of (c : choice) : list (string * string) :=
 Definition names_of (c : choice) : list string :=
   match c with Plain k | Custom k => [k_name k] | Mixed ms b => map k_name ms ++ [k_name b] end.
 
+(* the class is then called with exactly its keyword parameters: a constructor that also has a parameter without a
+   default cannot be built from an input file at all (Python: missing required argument) *)
+Definition missing_required (c : choice) : bool :=
+  match c with
+  | Plain k | Custom k => existsb (fun p => negb (mem p (map fst (k_defaults k)))) (k_params k)
+  | Mixed _ _ => false
+  end.
+
 (* create_klass : strict — an unknown key is a KeyError ; otherwise defaults overridden by the given values *)
 Definition apply_args (defaults : list (string * string)) (cfg : list (string * tval)) : list (string * tval) :=
   map (fun d => (fst d, match lookup (fst d) cfg with Some v => v | None => TDef (snd d) end)) defaults.
 Definition create_strict (c : choice) (cfg : list (string * tval)) : res (list string * list (string * tval)) :=
   let kw := kwargs_of c in
-  if forallb (fun kv => mem (fst kv) (map fst kw)) cfg then Ok (names_of c, apply_args kw cfg)
+  if forallb (fun kv => mem (fst kv) (map fst kw)) cfg then
+    if missing_required c then Err EType else Ok (names_of c, apply_args kw cfg)
   else Err EKey.
 
-(* klass(**config) : Python's own binding — unknown name or missing required parameter is a TypeError.
+(* klass called with the section as keyword arguments : Python's own binding — unknown name or missing required parameter is a TypeError.
    A mixed class has __init__(self, **kwargs) and accepts anything. *)
 Definition create_loose (c : choice) (cfg : list (string * tval)) : res (list string * list (string * tval)) :=
   match c with
@@ -243,7 +258,7 @@ Fixpoint upper (s : string) : string :=
   match s with
   | EmptyString => EmptyString
   | String c r => let n := nat_of_ascii c in
-                  String (if (97 <=? n) && (n <=? 122) then ascii_of_nat (n - 32) else c) (upper r)
+                  String (if Nat.leb 97 n && Nat.leb n 122 then ascii_of_nat (n - 32) else c) (upper r)
   end.
 Definition prior_matches (name : string) (k : klass) : bool :=
   String.eqb name (k_name k) || String.eqb name (lower (k_name k)) || String.eqb name (upper (k_name k)).
@@ -252,4 +267,39 @@ Definition create_prior (preg : list klass) (name : string) (args : list (string
   match find (prior_matches name) preg with
   | None => Err EValue
   | Some k => create_loose (Plain k) args
+  end.
+
+(* ---- what ParameterParser adds around the factories ---- *)
+(* generate_instrument: num_observations is taken out first; `instrument = snr / signalnoise` is built by the parser
+   itself (SNR, default 10) and, like every other component, refuses keys it does not know *)
+Definition parser_instrument (reg mix : list klass) (custom : option klass) (cfg : list (string * tval)) : res (list string * list (string * tval)) :=
+  let cfg1 := remove_key "num_observations" cfg in
+  match lookup "instrument" cfg1 with
+  | Some (TStr s) =>
+      if mem (lower s) ["snr"; "signalnoise"] then
+        if forallb (fun kv => mem (fst kv) ["instrument"; "SNR"]) cfg1
+        then Ok (["SNRInstrument"], [("SNR", match lookup "SNR" cfg1 with Some v => v | None => TDef "10" end);
+                                     ("binner", TComp "binner")])
+        else Err EKey
+      else create_direct reg mix custom "instrument" cfg1
+  | Some _ => Err EOther
+  | None => create_direct reg mix custom "instrument" cfg1
+  end.
+
+(* generate_observation: the four direct file keys in their order of precedence, else the `observation` selector *)
+Definition obs_keys : list (string * string) :=
+  [("lightcurve", "ObservedLightCurve"); ("observed_spectrum", "ObservedSpectrum");
+   ("taurex_spectrum", "TaurexSpectrum"); ("iraclis_spectrum", "IraclisSpectrum")].
+Definition parser_observation (reg mix : list klass) (custom : option klass) (cfg : list (string * tval)) : res (list string * list (string * tval)) :=
+  match find (fun kc => match lookup (fst kc) cfg with Some _ => true | None => false end) obs_keys with
+  | Some (key, cls) =>
+      if forallb (fun kv => String.eqb (fst kv) key) cfg then
+        match lookup key cfg with
+        | Some (TStr "self") => if String.eqb key "taurex_spectrum" then Ok (["self"], [])
+                                else Ok ([cls], [("filename", TStr "self")])
+        | Some v => Ok ([cls], [("filename", v)])
+        | None => Err EOther
+        end
+      else Err EKey
+  | None => create_direct reg mix custom "observation" cfg
   end.
